@@ -253,7 +253,7 @@ def proof_stage(mod, res, tier):
     axioms = []
     for blk in re.findall(r"Axioms:\n((?:.+\n?)+?)(?=\n\S|\Z)", out):
         for line in blk.splitlines():
-            m = re.match(r"^([A-Za-z_][\w.']*)\s*:", line)
+            m = re.match(r"^([A-Za-z_][\w.']*)\s*(?::|$)", line)   # a long type is printed on the following, indented lines
             if m:
                 axioms.append(m.group(1))
     res.axioms = sorted(set(axioms))
